@@ -1,3 +1,157 @@
-/- C20 — property theorems over Qfx.Model.Session (placeholder being filled; see checklist at the end) -/
-import Qfx.Spec.Session
-open Qfx Qfx.Sess Qfx.SessSpec
+/-
+  C20 — "Keep-alive: heartbeats, test requests and dead-peer disconnect".
+  Property theorems only (helper lemmas: Qfx/Lemmas/SessC20.lean, Qfx/Lemmas/SessC04.lean).
+
+  properties.jsonl: "While logged on, a TestRequest received in sequence is answered by one Heartbeat carrying the same
+  TestReqID; when nothing has been sent for the heartbeat interval a Heartbeat is sent (unless a test request is
+  pending), and when nothing has been received for 1.2 heartbeat intervals a TestRequest is sent. If nothing arrives for
+  another 1.2 intervals the session is disconnected and the application notified, whereas any inbound message in between
+  cancels the pending disconnect without disturbing a gap recovery in progress. An acceptor uses the interval announced
+  in the peer's Logon unless configured to override it."
+-/
+import Qfx.Lemmas.SessC20
+open Qfx Qfx.Sess
+
+/-- normal operation or gap recovery, no TestRequest outstanding -/
+def C20Active (st : SState) : Prop := st = .inSession ∨ ∃ stash cur fin, st = .resend stash cur fin
+/-- a TestRequest is outstanding -/
+def C20Pending (st : SState) : Prop := st = .pendingIn ∨ ∃ stash cur fin, st = .pendingResend stash cur fin
+
+/-- the pending wrapper of a state: same stash, same chunk end, same gap end -/
+def pendingOf : SState → SState
+  | .inSession => .pendingIn
+  | .resend stash cur fin => .pendingResend stash cur fin
+  | st => st
+
+theorem C20Active.loggedOn {st : SState} (h : C20Active st) : st.loggedOn = true := by
+  rcases h with h | ⟨a, b, c, h⟩ <;> rw [h] <;> rfl
+theorem C20Pending.loggedOn {st : SState} (h : C20Pending st) : st.loggedOn = true := by
+  rcases h with h | ⟨a, b, c, h⟩ <;> rw [h] <;> rfl
+
+/-! ### the timer events (`C20_events`) -/
+
+/-- NeedHeartbeat (nothing sent for the heartbeat interval) outside a pending TestRequest: exactly one Heartbeat (no
+    TestReqID) is sent, the state does not change -/
+theorem C20_heartbeat (s : Sess) (h : C20Active s.st) :
+    timeoutCore s .needHeartbeat = (sendInReplyTo s (mkOut "0" []), s.st) := by
+  rcases h with h | ⟨a, b, c, h⟩ <;> simp [timeoutCore, inSessionTimeout, h]
+
+/-- … unless a TestRequest is pending: nothing at all happens -/
+theorem C20_no_heartbeat_while_pending (s : Sess) (h : C20Pending s.st) :
+    timeoutCore s .needHeartbeat = (s, s.st) := by
+  rcases h with h | ⟨a, b, c, h⟩ <;> simp [timeoutCore, h]
+
+/-- PeerTimeout (nothing received for 1.2 heartbeat intervals) with no TestRequest outstanding: exactly one TestRequest
+    `112=TEST` is sent, the peer timer is re-armed to 1.2 × HeartBtInt, the next state is the pending wrapper of the
+    same state (a recovery keeps its stash and ranges) -/
+theorem C20_test_request (s : Sess) (h : C20Active s.st) :
+    timeoutCore s .peerTimeout =
+      ((sendInReplyTo s (mkOut "1" [(112, "TEST")])).emit (.armPeer (1200 * s.hb)), pendingOf s.st) := by
+  have hb : (sendInReplyTo s (mkOut "1" [(112, "TEST")])).hb = s.hb := (adminSent s _ rfl rfl h.loggedOn).hb
+  rcases h with h | ⟨a, b, c, h⟩ <;> simp [timeoutCore, inSessionTimeout, h, hb, pendingOf]
+
+/-- PeerTimeout while the TestRequest is still unanswered: nothing is sent; the session leaves for `latent` … -/
+theorem C20_dead_peer (s : Sess) (h : C20Pending s.st) : timeoutCore s .peerTimeout = (s, .latent) := by
+  rcases h with h | ⟨a, b, c, h⟩ <;> simp [timeoutCore, h]
+
+/-- what "sent" means for the Heartbeat / TestRequest: numbered, stored, written after whatever was queued -/
+theorem C20_sent (s : Sess) (k : String) (f : Fields) (hk : isAdminKind k = true) (hA : (k == "A") = false)
+    (hl : s.st.loggedOn = true) : AdminSent s (mkOut k f) (sendInReplyTo s (mkOut k f)) := adminSent s _ hk hA hl
+
+/-! the same on whole events -/
+
+theorem C20_heartbeat_step (s : Sess) (h : C20Active s.st) :
+    (step s (.timeout .needHeartbeat)).1.st = s.st ∧
+    (step s (.timeout .needHeartbeat)).2.1 =
+      persistObs s.cfg (numbered s (mkOut "0" [])) ::
+        (if s.out then (s.toSend ++ [numbered s (mkOut "0" [])]).map Obs.wire else []) := by
+  have hl := h.loggedOn
+  have hs : AdminSent s.clearLog (mkOut "0" []) (sendInReplyTo s.clearLog (mkOut "0" [])) := adminSent _ _ rfl rfl hl
+  rw [step_timeout_eq s _ (connected_sessionTime _ (loggedOn_connected _ hl)) _ (C20_heartbeat s.clearLog h)
+    (loggedOn_connected _ hl)]
+  refine ⟨rfl, ?_⟩
+  simp only [hs.log]
+  simp [Sess.clearLog, numbered]
+
+theorem C20_no_heartbeat_while_pending_step (s : Sess) (h : C20Pending s.st) :
+    (step s (.timeout .needHeartbeat)).1.st = s.st ∧ (step s (.timeout .needHeartbeat)).2.1 = [] ∧
+    (step s (.timeout .needHeartbeat)).1.toSend = s.toSend := by
+  have hl := h.loggedOn
+  rw [step_timeout_eq s _ (connected_sessionTime _ (loggedOn_connected _ hl)) _ (C20_no_heartbeat_while_pending s.clearLog h)
+    (loggedOn_connected _ hl)]
+  exact ⟨rfl, rfl, rfl⟩
+
+theorem pendingOf_connected (st : SState) (h : C20Active st) : (pendingOf st).connected = true := by
+  rcases h with h | ⟨a, b, c, h⟩ <;> rw [h] <;> rfl
+
+theorem C20_test_request_step (s : Sess) (h : C20Active s.st) :
+    (step s (.timeout .peerTimeout)).1.st = pendingOf s.st ∧
+    (step s (.timeout .peerTimeout)).2.1 =
+      persistObs s.cfg (numbered s (mkOut "1" [(112, "TEST")])) ::
+        (if s.out then (s.toSend ++ [numbered s (mkOut "1" [(112, "TEST")])]).map Obs.wire else [])
+        ++ [.armPeer (1200 * s.hb)] := by
+  have hl := h.loggedOn
+  have hs : AdminSent s.clearLog (mkOut "1" [(112, "TEST")]) (sendInReplyTo s.clearLog (mkOut "1" [(112, "TEST")])) :=
+    adminSent _ _ rfl rfl hl
+  rw [step_timeout_eq s _ (connected_sessionTime _ (loggedOn_connected _ hl)) _ (C20_test_request s.clearLog h)
+    (pendingOf_connected _ h)]
+  refine ⟨rfl, ?_⟩
+  simp only [Sess.emit, List.reverse_cons, hs.log]
+  simp [Sess.clearLog, numbered]
+
+/-- … and on the whole event (nothing buffered in the inbound channel — "nothing arrives"): the application is notified
+    (`onLogout`), the store is reset if so configured, the connection is closed; no TestRequest, nothing else -/
+theorem C20_dead_peer_step (s : Sess) (h : C20Pending s.st) (hi : s.inbox = []) :
+    (step s (.timeout .peerTimeout)).1.st = .latent ∧ (step s (.timeout .peerTimeout)).1.out = false ∧
+    (step s (.timeout .peerTimeout)).2.1 = Obs.onLogout ::
+        ((if s.cfg.resetOnDisconnect then [Obs.reset] else []) ++ (if s.out then [Obs.closed] else [])) :=
+  step_timeout_latent s _ h.loggedOn hi (C20_dead_peer s.clearLog h)
+
+/-! ### an inbound message while the TestRequest is pending (`C20_cancel`) -/
+
+/-- the next state chosen by the handler of an inbound message is never a pending one: whatever arrives cancels the
+    pending disconnect -/
+theorem C20_cancel_not_pending (s : Sess) (m : InMsg) : ¬ C20Pending (fixMsgInCore s m).2 := by
+  have := np_fixMsgInCore s m
+  rintro (h | ⟨a, b, c, h⟩) <;> rw [h] at this <;> cases this
+
+/-- **C20 (cancel)**, normal operation: with a TestRequest pending an inbound message is processed exactly as in
+    `inSession` — same next state, same session record (same observations, counters, queue) up to the state tag,
+    which no handler touches -/
+theorem C20_cancel_inSession (s : Sess) (m : InMsg) (h : s.st = .pendingIn) :
+    fixMsgInCore (s.setSt .inSession) m = ((fixMsgInCore s m).1.setSt .inSession, (fixMsgInCore s m).2) := by
+  have hs : Same .inSession s := ⟨by rw [h]; rfl, by simp [curResend, h, Sess.setSt]⟩
+  have e1 : fixMsgInCore s m = inSessionFixMsgIn s m := by simp [fixMsgInCore, h]
+  have e2 : fixMsgInCore (s.setSt .inSession) m = inSessionFixMsgIn (s.setSt .inSession) m := by simp [fixMsgInCore, Sess.setSt]
+  rw [e1, e2, c_inSessionFixMsgIn _ s m hs]; rfl
+
+/-- **C20 (cancel)**, gap recovery in progress: with a TestRequest pending an inbound message is processed exactly as in
+    the recovery state with the same stash, chunk end and gap end (the code after the `fix:` — the type switches look
+    through the pending wrapper; `lookThroughPending` is the model's switch for that, on by default) -/
+theorem C20_cancel_resend (s : Sess) (m : InMsg) (stash : List (Int × InMsg)) (cur fin : Int)
+    (h : s.st = .pendingResend stash cur fin) (hfix : s.cfg.lookThroughPending = true) :
+    fixMsgInCore (s.setSt (.resend stash cur fin)) m =
+      ((fixMsgInCore s m).1.setSt (.resend stash cur fin), (fixMsgInCore s m).2) := by
+  have hs : Same (.resend stash cur fin) s := ⟨by rw [h]; rfl, by simp [curResend, h, hfix, Sess.setSt]⟩
+  have e1 : fixMsgInCore s m = resendFixMsgIn s stash cur fin m := by simp [fixMsgInCore, h]
+  have e2 : fixMsgInCore (s.setSt (.resend stash cur fin)) m = resendFixMsgIn (s.setSt (.resend stash cur fin)) stash cur fin m := by
+    simp [fixMsgInCore, Sess.setSt]
+  rw [e1, e2, c_resendFixMsgIn _ s stash cur fin m hs]; rfl
+
+/-- consequently the whole event `Incoming(m)` is the same in a pending state and in the state it wraps, whenever the
+    handler leaves the session connected (observations, final record and status are equal) -/
+theorem C20_cancel_step (s : Sess) (m : InMsg) (b : SState)
+    (h : (s.st = .pendingIn ∧ b = .inSession) ∨
+         (∃ stash cur fin, s.st = .pendingResend stash cur fin ∧ b = .resend stash cur fin ∧ s.cfg.lookThroughPending = true))
+    (hnx : (fixMsgInCore s.clearLog m).2.connected = true) :
+    step (s.setSt b) (.incomingMsg (some m)) = step s (.incomingMsg (some m)) := by
+  have hc : s.st.connected = true := by
+    rcases h with ⟨h, _⟩ | ⟨_, _, _, h, _, _⟩ <;> rw [h] <;> rfl
+  have hcb : (s.setSt b).st.connected = true := by
+    rcases h with ⟨_, h⟩ | ⟨_, _, _, _, h, _⟩ <;> rw [h] <;> rfl
+  have key : fixMsgInCore (s.clearLog.setSt b) m = ((fixMsgInCore s.clearLog m).1.setSt b, (fixMsgInCore s.clearLog m).2) := by
+    rcases h with ⟨h, rfl⟩ | ⟨st, c, f, h, rfl, hf⟩
+    · exact C20_cancel_inSession s.clearLog m h
+    · exact C20_cancel_resend s.clearLog m st c f h hf
+  rw [step_incoming_eq s m hc _ rfl hnx, step_incoming_eq (s.setSt b) m hcb _ key hnx]
+  rfl
